@@ -28,7 +28,7 @@ def analyse_step(facts, ty, body, kind, preset=None):
     that no public operation ever writes (they keep the constructor's constant: a trivially inductive fact)"""
     I = new_interp(facts)
     selfv = I.sym_value(norm_ty(ty), 'self')
-    for k_, v_ in (preset or {}).items(): selfv.fields[k_] = fcopy(v_)
+    for k_, v_ in (preset or {}).items(): set_leaf(selfv, k_, fcopy(v_))
     pre = fcopy(selfv)
     ps = params_of(body)
     args = [I.sym_value(norm_ty(t), n) for n, t in ps[1:]]
@@ -46,6 +46,27 @@ def analyse_step(facts, ty, body, kind, preset=None):
     s.tops = list(I.tops)
     return s
 
+def leaves(v, prefix=''):
+    out = {}
+    if isinstance(v, StructV):
+        for k, x in v.fields.items(): out.update(leaves(x, prefix + k + '.'))
+    else: out[prefix[:-1]] = v
+    return out
+
+def set_leaf(v, path, val):
+    ps = path.split('.')
+    for p in ps[:-1]: v = v.fields[p]
+    v.fields[ps[-1]] = val
+
+def reachable_self(facts, ty, I):
+    """symbolic receiver of a table type with the never-written constant fields preset"""
+    sv = I.sym_value(norm_ty(ty), 'self')
+    hp = header_field_path(facts, ty)
+    if hp:
+        T = Table(facts, ty, hp)
+        for k_, v_ in T.const_fields.items(): set_leaf(sv, k_, fcopy(v_))
+    return sv
+
 def ground(v):
     """value without atoms (a compile-time constant)"""
     if is_term(v): return not atoms(v)
@@ -62,14 +83,15 @@ class Table:
             k = classify(b, ty)
             if k == 'ctor': self.ctors.append(analyse_ctor(facts, ty, b))
             elif k in ('mut', 'builder'): self.steps.append(analyse_step(facts, ty, b, k))
-        # fields never written by any public operation and constant after every constructor
+        # leaf fields never written by any public operation and constant after every constructor
         self.const_fields = {}
         if self.ctors and self.steps and all(isinstance(c.post, StructV) for c in self.ctors):
-            for fld in self.ctors[0].post.fields:
-                vals = [c.post.fields.get(fld) for c in self.ctors]
+            flat0 = [leaves(c.post) for c in self.ctors]
+            for path, v0 in flat0[0].items():
+                vals = [fl.get(path) for fl in flat0]
                 if not all(ground(v) for v in vals) or any(repr(v) != repr(vals[0]) for v in vals): continue
-                if all(isinstance(s.post, StructV) and repr(s.post.fields.get(fld)) == repr(s.pre.fields.get(fld)) for s in self.steps):
-                    self.const_fields[fld] = vals[0]
+                if all(isinstance(s.post, StructV) and repr(leaves(s.post).get(path)) == repr(leaves(s.pre).get(path)) for s in self.steps):
+                    self.const_fields[path] = vals[0]
             if self.const_fields:
                 self.steps = [analyse_step(facts, ty, s.fn, s.kind, self.const_fields) for s in self.steps]
         adt = facts.adt(norm_ty(ty).split('<')[0])
